@@ -49,6 +49,27 @@ def cases(tier):
     ts = sorted(set(ts) | set(corpus.span_templates(3)), key=lambda s: (len(s), s))
     for i in range(0, len(ts), 8):
         out.append({"k": "real", "ts": ts[i : i + 8]})
+    dl = depth_loops()
+    for i in range(0, len(dl), 4):
+        out.append({"k": "real", "ts": dl[i : i + 4], "rules": "LT02"})
+        out.append({"k": "real", "ts": dl[i : i + 4]})
+    return out
+
+
+def depth_loops():
+    """Loop bodies that open / close a bracket or a CASE: the SAME source line renders at a different nesting
+    depth on each iteration, so one variant yields several edits for one source position."""
+    out = []
+    openers = ["(\n", "f({{ x }},\n", "coalesce(a,\n", "CASE WHEN a THEN\n"]
+    closers = {"(\n": ")\n", "f({{ x }},\n": ")\n", "coalesce(a,\n": ")\n", "CASE WHEN a THEN\n": "END\n"}
+    for op in openers:
+        for it in ("[1, 2]", "[1, 2, 3]"):
+            for ind in ("", "    ", "  "):
+                for tail in ("0\n", "    0\n"):
+                    out.append(
+                        "SELECT\n    f(\n{% for x in " + it + " %}\n" + ind + op + "{% endfor %}\n" + tail
+                        + "{% for x in " + it + " %}\n" + ind + closers[op] + "{% endfor %}\n    ) AS y\nFROM t\n"
+                    )
     return out
 
 
@@ -61,8 +82,8 @@ def run_real(case, res):
             if "ctx" in case and case["ctx"] != ci:
                 continue
             res["n"] += 1
-            one = {"k": "real", "ts": [t], "ctx": ci}
-            lnt = sq.linter("ansi", "jinja", rules="all", configs=sq.jinja_ctx_configs(corpus.T_CTX[ci]))
+            one = {"k": "real", "ts": [t], "ctx": ci, **({"rules": case["rules"]} if case.get("rules") else {})}
+            lnt = sq.linter("ansi", "jinja", rules=case.get("rules", "all"), configs=sq.jinja_ctx_configs(corpus.T_CTX[ci]))
             try:
                 lf, fixed = fixfam.run_fix(lnt, t)
             except Exception:
@@ -117,7 +138,9 @@ def run_case(case):
     cands = []
     for i in range(N + 1):
         for j in range(i, N + 1):
-            for r in reps:
+            # insertions (i == j) always come with two different texts, so two edits of one variant can
+            # target the same zero-length range with different replacements
+            for r in reps if (i < j or thorough) else reps + ["Y"]:
                 if i == j and r == "":
                     continue
                 for cat in ("literal", "source"):
